@@ -430,3 +430,26 @@ def cum_monotone(vc):
     seg_facts(st, b + 1)
     vc.ensure("step", _lift(cum(zi(a)) <= cum(zi(b) + 1)))
     vc.ensure("base", _lift(cum(zi(a)) <= cum(zi(a))))
+
+
+def _replay_chunk_for_index(md, vparam, model, st):
+    return None
+
+
+@harness("chunk_for_index", "reader.TdmsReader.read_channel_chunk_for_index", ["C04", "C19", "C03"],
+         setup=_setup, note="unbounded in the number of segments and chunks (no loop: binary search contract)")
+def chunk_for_index(vc):
+    rd, N, F, M, n = mk_reader_for_channel(vc)
+    st = vc.st
+    index = vc.int("index", lo=0)
+    vc.assume(index < n)                      # precondition established by TdmsChannel._read_at_index
+    st.ghost["env"] = {"offset": index, "end_index": index + 1}
+    out = vc.call_method(rd, "read_channel_chunk_for_index", PATH, index)
+    vc.ensure("no-exception", out.kind == "ret")
+    if out.kind != "ret":
+        return
+    (chunk, chunk_offset) = out.value
+    w = chunk.data
+    vc.ensure("chunk-contains-the-index", And(w.lo <= index, index < w.hi))
+    vc.ensure("reported-offset-is-the-chunk's-first-index", chunk_offset == w.lo)
+    vc.ensure("c19/one-segment-touched", len(st.ghost.get("tag_reads", [])) == 1, kind="read-set")
